@@ -279,6 +279,11 @@ static void hostile_case(uint64_t index)
         "(indexes=)", "(indexes=0,0)", "(indexes=1)", "(indexes=core:core)", "(indexes=2*0)", "(indexes=0*2)", "(indexes=3*3:1*3)", "(indexes=numa)", "(size=)", "(memory=18446744073709551615TB)", "group:1", "Tile:2", "Module:1",
         "l9:2", "L1:", "x", ",", "indexes=", "(memorysidecachesize=1kB)", "\n", "\t", "osdev:1", "bridge:1", "pci:1", "Cache:2", "l1i", "die:2", "(", "((" };
       unsigned n = 1 + (unsigned)hv_below(&R, 3);
+      /* an explicit index list in which one value appears twice (the description stays syntactically valid) */
+      if (hv_chance(&R, 1, 4)) { char *ix = strstr(d.s, "indexes="); if (ix && isdigit((unsigned char)ix[8])) { char *e = ix + 8; unsigned nt = 1; while (isdigit((unsigned char)*e) || *e == ',') { if (*e == ',') nt++; e++; }
+          if (nt >= 2) { unsigned i = (unsigned)hv_below(&R, nt), j = (i + 1 + (unsigned)hv_below(&R, nt - 1)) % nt; char *ti = ix + 8, *tj = ix + 8; for (unsigned k = 0; k < i; k++) ti = strchr(ti, ',') + 1; for (unsigned k = 0; k < j; k++) tj = strchr(tj, ',') + 1;
+            size_t li = strspn(ti, "0123456789"), lj = strspn(tj, "0123456789"); char vj[24]; snprintf(vj, sizeof vj, "%.*s", (int)(lj < 20 ? lj : 20), tj);
+            struct hv_str n2; hv_str_init(&n2); hv_str_addn(&n2, d.s, (size_t)(ti - d.s)); hv_str_addn(&n2, vj, strlen(vj)); hv_str_addn(&n2, ti + li, strlen(ti + li)); hv_str_free(&d); d = n2; n = 0; hv_stat("hostile.duplicate_index_lists", 1); } } }
       for (unsigned k = 0; k < n; k++) {
         size_t pos = d.len ? (size_t)hv_below(&R, d.len + 1) : 0;
         switch (hv_below(&R, 5)) {
